@@ -30,8 +30,8 @@ func (*c27) ID() string { return "C27" }
 func (*c27) Rule() string {
 	return "a parent state (scalars, dense and sparse indexed arrays incl. ones with spare capacity, associative arrays, exported/readonly/integer-looking variables, namerefs, functions, aliases, set/shopt options, a working directory below the scratch root, positional parameters; optionally inside a function with locals) is built by one Run call; then a list S of mutating statements (assignments, += on scalars and on array names, a[i]=, a+=(..), a[i]+=, unset of variables/elements/functions, declare -g, export, readonly, : ${v:=x}, ((v++)), read, mapfile, getopts, function (re)definition, alias/unalias, set -e/-u/-f/-o pipefail, shopt -s/-u, cd, pushd, set --, shift, trap) runs inside an isolating construct: ( S ), x=$( S ), `S`, cat <( S ), : > >( S ), S | cat (a non-last pipeline stage), S & wait, and Runner.Subshell() driven through the Go API. Oracle: Runner.Vars, the printed Runner.Funcs, Dir and Params, and the output of a dump program (alias; set +o; shopt; pwd; $#:$*; dirs) are identical before and after. Non-trivial: always (every case mutates); distinct: hash of the case."
 }
-func (*c27) NumCases(tier string) int      { return tierN(tier, 3000, 80000) }
-func (*c27) MinNontrivial(tier string) int { return tierN(tier, 1500, 40000) }
+func (*c27) NumCases(tier string) int      { return tierN(tier, 3000, 40000) }
+func (*c27) MinNontrivial(tier string) int { return tierN(tier, 1500, 20000) }
 func (*c27) New() any                      { return &IsoCase{} }
 func (*c27) Race(tier string) bool         { return tier == "thorough" }
 func (*c27) CaseTimeout() time.Duration    { return 120 * time.Second }
